@@ -341,7 +341,14 @@ Record sstate := { st_map : kvmap; st_readers : list (Z * kvmap) }.
 Inductive sop :=
 | OpBatch (ops : list bop)
 | OpOpen (rid : Z)
-| OpClose (rid : Z).
+| OpClose (rid : Z)
+(* configurations with a persisting lower level (moss over a registry store / mossStore, lower.go):
+   OpSync = the engine's background persister has handed everything written so far down to the
+   lower-level store (llStore.update, in chunks of mossLowerLevelMaxBatchSize) and dropped its
+   in-memory segments; OpReopen = the store is closed and opened again over the same lower-level
+   store.  Neither is an operation of the map: the contents stay, a reopen leaves no reader. *)
+| OpSync
+| OpReopen.
 
 Fixpoint reader_lookup (rs : list (Z * kvmap)) (rid : Z) : option kvmap :=
   match rs with
@@ -364,6 +371,16 @@ Definition store_step (pol : policy) (mo : merge_op) (st : sstate) (o : sop) : o
       end
   | OpOpen rid => Some {| st_map := st_map st; st_readers := (rid, st_map st) :: st_readers st |}
   | OpClose rid => Some {| st_map := st_map st; st_readers := reader_remove (st_readers st) rid |}
+  | OpSync => Some st
+  | OpReopen => Some {| st_map := st_map st; st_readers := [] |}
+  end.
+
+(* the batches of an operation sequence, in order *)
+Fixpoint batches_of (os : list sop) : list (list bop) :=
+  match os with
+  | [] => []
+  | OpBatch ops :: os' => ops :: batches_of os'
+  | _ :: os' => batches_of os'
   end.
 
 Fixpoint store_run (pol : policy) (mo : merge_op) (st : sstate) (os : list sop) : option sstate :=
